@@ -34,7 +34,7 @@ import (
 	"strings"
 )
 
-const extractorVersion = "c18-extract-9"
+const extractorVersion = "c18-extract-10"
 
 var excludedPkgs = map[string]string{
 	"draw":     "graphical output",
@@ -216,26 +216,26 @@ func declName(d ast.Decl) string {
 }
 
 var sourceFuncs = map[string]string{
-	"time.Now":             "clock",
-	"time.Since":           "clock",
-	"time.Until":           "clock",
-	"math/rand.Seed":       "seed",
-	"math/rand.NewSource":  "seed",
-	"math/rand.New":        "seed",
-	"os.Getpid":            "pid",
-	"os.Getppid":           "pid",
-	"os.Hostname":          "host",
-	"runtime.NumCPU":       "ncpu",
-	"runtime.GOMAXPROCS":   "ncpu",
-	"runtime.NumGoroutine": "ncpu",
-	"os.TempDir":           "tmp",
-	"os.CreateTemp":        "tmp",
-	"os.MkdirTemp":         "tmp",
-	"io/ioutil.TempFile":   "tmp",
-	"io/ioutil.TempDir":    "tmp",
-	"(reflect.Value).MapKeys":  "reflectmap",
-	"(reflect.Value).MapRange": "reflectmap",
-	"crypto/rand.Read":         "seed",
+	"time.Now":                      "clock",
+	"time.Since":                    "clock",
+	"time.Until":                    "clock",
+	"math/rand.Seed":                "seed",
+	"math/rand.NewSource":           "seed",
+	"math/rand.New":                 "seed",
+	"os.Getpid":                     "pid",
+	"os.Getppid":                    "pid",
+	"os.Hostname":                   "host",
+	"runtime.NumCPU":                "ncpu",
+	"runtime.GOMAXPROCS":            "ncpu",
+	"runtime.NumGoroutine":          "ncpu",
+	"os.TempDir":                    "tmp",
+	"os.CreateTemp":                 "tmp",
+	"os.MkdirTemp":                  "tmp",
+	"io/ioutil.TempFile":            "tmp",
+	"io/ioutil.TempDir":             "tmp",
+	"(reflect.Value).MapKeys":       "reflectmap",
+	"(reflect.Value).MapRange":      "reflectmap",
+	"crypto/rand.Read":              "seed",
 	"(reflect.Value).Pointer":       "address",
 	"(reflect.Value).UnsafeAddr":    "address",
 	"(reflect.Value).UnsafePointer": "address",
@@ -330,11 +330,6 @@ func ExtractAll(repo string) (sites, sources []siteRec, typeErrs []string, hooks
 	plain := build.Default // a normal build: without the tag
 	plain.CgoEnabled = false
 	hookFile := map[string]bool{}
-	errT := types.Universe.Lookup("error").Type().Underlying().(*types.Interface)
-	// fmt.Stringer built by hand (method String() string)
-	strSig := types.NewSignatureType(nil, nil, nil, nil, types.NewTuple(types.NewVar(token.NoPos, nil, "", types.Typ[types.String])), false)
-	stringer := types.NewInterfaceType([]*types.Func{types.NewFunc(token.NoPos, nil, "String", strSig)}, nil)
-	stringer.Complete()
 
 	for _, dir := range dirs {
 		rel, _ := filepath.Rel(repo, dir)
@@ -390,145 +385,9 @@ func ExtractAll(repo string) (sites, sources []siteRec, typeErrs []string, hooks
 				fscope = "hook"
 			}
 			for _, d := range f.Decls {
-				dn := declName(d)
-				var stack []ast.Node
-				seen := map[string]int{}
-				// conditions of the enclosing if / for / switch / case headers (the guard path)
-				guards := func() string {
-					var g []string
-					for i := 0; i < len(stack); i++ {
-						switch y := stack[i].(type) {
-						case *ast.IfStmt:
-							g = append(g, "if "+normSrc(fset, y.Cond))
-						case *ast.ForStmt:
-							if y.Cond != nil {
-								g = append(g, "for "+normSrc(fset, y.Cond))
-							}
-						case *ast.SwitchStmt:
-							if y.Tag != nil {
-								g = append(g, "switch "+normSrc(fset, y.Tag))
-							}
-						case *ast.CaseClause:
-							for _, e := range y.List {
-								g = append(g, "case "+normSrc(fset, e))
-							}
-						}
-					}
-					return strings.Join(g, " | ")
-				}
-				mk := func(kind string, n ast.Node, fp string, operand string) siteRec {
-					base := fname + ":" + dn + ":" + kind + ":" + fp
-					seen[base]++
-					key := fmt.Sprintf("%s:%s:%s#%d", fname, dn, fp, seen[base])
-					if kind != "maprange" {
-						key = kind + ":" + key
-					}
-					return siteRec{Key: key, File: fname, Fn: dn, Operand: operand, Scope: fscope, Kind: kind, Line: fset.Position(n.Pos()).Line, Guard: guards()}
-				}
-				enclosingStmt := func() ast.Node {
-					for i := len(stack) - 1; i >= 0; i-- {
-						if s, ok := stack[i].(ast.Stmt); ok {
-							if _, isBlock := s.(*ast.BlockStmt); !isBlock {
-								return s
-							}
-						}
-						if s, ok := stack[i].(*ast.ValueSpec); ok {
-							return s
-						}
-					}
-					return nil
-				}
-				ast.Inspect(d, func(n ast.Node) bool {
-					if n == nil {
-						stack = stack[:len(stack)-1]
-						return true
-					}
-					switch x := n.(type) {
-					case *ast.RangeStmt:
-						tv, ok := info.Types[x.X]
-						isMap := false
-						if ok && tv.Type != nil {
-							_, isMap = tv.Type.Underlying().(*types.Map)
-						}
-						if !ok || tv.Type == nil {
-							// untyped operand (type error nearby): must not go unnoticed
-							sites = append(sites, mk("maprange", x, "UNTYPED-"+hash12(normSrc(fset, x)), normSrc(fset, x.X)))
-						} else if isMap {
-							// tail: following siblings that use what the loop wrote
-							var tail []string
-							if len(stack) > 0 {
-								sibs := stmtList(stack[len(stack)-1])
-								w := writtenOutside(info, x.Body, x.Pos(), x.End())
-								after := false
-								for _, s := range sibs {
-									if s == ast.Stmt(x) {
-										after = true
-										continue
-									}
-									if after && len(w) > 0 && mentions(info, s, w) {
-										tail = append(tail, normSrc(fset, s))
-									}
-								}
-							}
-							fp := hash12(append([]string{normSrc(fset, x)}, tail...)...)
-							sites = append(sites, mk("maprange", x, fp, normSrc(fset, x.X)))
-						}
-					case *ast.SelectStmt:
-						if x.Body != nil && len(x.Body.List) >= 2 {
-							sources = append(sources, mk("select", x, hash12(normSrc(fset, x)), "select"))
-						}
-					case *ast.SelectorExpr:
-						if id, ok := x.X.(*ast.Ident); ok {
-							if pn, ok := info.Uses[id].(*types.PkgName); ok && pn.Imported().Path() == "unsafe" {
-								st := enclosingStmt()
-								if st == nil {
-									st = x
-								}
-								sources = append(sources, mk("address", x, hash12(normSrc(fset, st), guards()), "unsafe."+x.Sel.Name))
-							}
-						}
-					case *ast.GoStmt:
-						sources = append(sources, mk("goroutine", x, "go", "go")) // the bodies belong to C11: only the existence of the goroutine is recorded
-					case *ast.BasicLit:
-						if x.Kind == token.STRING && strings.Contains(x.Value, "%p") {
-							st := enclosingStmt()
-							if st == nil {
-								st = x
-							}
-							sources = append(sources, mk("pointerfmt", x, hash12(normSrc(fset, st), guards()), "%p"))
-						}
-					case *ast.CallExpr:
-						var fn *types.Func
-						switch fx := x.Fun.(type) {
-						case *ast.SelectorExpr:
-							fn, _ = info.Uses[fx.Sel].(*types.Func)
-						case *ast.Ident:
-							fn, _ = info.Uses[fx].(*types.Func)
-						}
-						if fn != nil {
-							full := fn.FullName()
-							if kind, ok := sourceFuncs[full]; ok {
-								st := enclosingStmt()
-								if st == nil {
-									st = x
-								}
-								sources = append(sources, mk(kind, x, hash12(normSrc(fset, st), guards()), full))
-							}
-							if fmtFuncs[full] {
-								for ai, a := range x.Args {
-									if ai == 0 && strings.HasPrefix(fn.Name(), "F") {
-										continue // the io.Writer
-									}
-									if tv, ok := info.Types[a]; ok && isAddressy(tv.Type, stringer, errT) && !tv.IsNil() {
-										sources = append(sources, mk("pointerarg", x, hash12(normSrc(fset, x)), normSrc(fset, a)))
-									}
-								}
-							}
-						}
-					}
-					stack = append(stack, n)
-					return true
-				})
+				s1, s2 := scanDecl(fset, info, d, fname, fscope)
+				sites = append(sites, s1...)
+				sources = append(sources, s2...)
 			}
 		}
 	}
@@ -577,7 +436,7 @@ func repoHash(repo string) string {
 	return fmt.Sprintf("%x", h.Sum(nil))[:24]
 }
 
-func render(sites, sources []siteRec, typeErrs []string, hooks []string) string {
+func render(sites, sources []siteRec, typeErrs []string, hooks []string, depSites, depSources []siteRec, depNotes []string) string {
 	var b strings.Builder
 	b.WriteString("-- GENERATED by harness/c18/extract.go (vh gen-tables) from the working tree of the repository; do not edit.\n")
 	b.WriteString("-- Table (c) of DESIGN §4.1: every `range` over a map in non-test code, and the other sources of\n")
@@ -611,6 +470,16 @@ func render(sites, sources []siteRec, typeErrs []string, hooks []string) string 
 		}
 		b.WriteString(leanStr(e))
 	}
+	b.WriteString("]\n\n-- goalign (module cache), the part reachable from the repository's code (calls through an interface reach\n-- every method of that name): scope \"dep\"\n")
+	w("depSites", depSites)
+	w("depSources", depSources)
+	b.WriteString("def depNotes : List String := [")
+	for i, e := range depNotes {
+		if i > 0 {
+			b.WriteString(", ")
+		}
+		b.WriteString(leanStr(e))
+	}
 	b.WriteString("]\n\nend Gotree.Gen.C18Sites\n")
 	return b.String()
 }
@@ -631,13 +500,171 @@ func GenTables(repo, out string) error {
 		if err != nil {
 			return err
 		}
-		content = render(sites, sources, terrs, hooks)
+		ds, dso, dn := ExtractDeps(repo)
+		content = render(sites, sources, terrs, hooks, ds, dso, dn)
 		os.WriteFile(cache, []byte(content), 0644)
 	}
 	if old, err := os.ReadFile(target); err == nil && string(old) == content {
 		return nil
 	}
 	return os.WriteFile(target, []byte(content), 0644)
+}
+
+// scanDecl lists the map-range sites and the other sources of one top-level declaration.
+func scanDecl(fset *token.FileSet, info *types.Info, d ast.Decl, fname, fscope string) (sites, sources []siteRec) {
+	stringer, errT := fmtIfaces()
+	dn := declName(d)
+	var stack []ast.Node
+	seen := map[string]int{}
+	// conditions of the enclosing if / for / switch / case headers (the guard path)
+	guards := func() string {
+		var g []string
+		for i := 0; i < len(stack); i++ {
+			switch y := stack[i].(type) {
+			case *ast.IfStmt:
+				g = append(g, "if "+normSrc(fset, y.Cond))
+			case *ast.ForStmt:
+				if y.Cond != nil {
+					g = append(g, "for "+normSrc(fset, y.Cond))
+				}
+			case *ast.SwitchStmt:
+				if y.Tag != nil {
+					g = append(g, "switch "+normSrc(fset, y.Tag))
+				}
+			case *ast.CaseClause:
+				for _, e := range y.List {
+					g = append(g, "case "+normSrc(fset, e))
+				}
+			}
+		}
+		return strings.Join(g, " | ")
+	}
+	mk := func(kind string, n ast.Node, fp string, operand string) siteRec {
+		base := fname + ":" + dn + ":" + kind + ":" + fp
+		seen[base]++
+		key := fmt.Sprintf("%s:%s:%s#%d", fname, dn, fp, seen[base])
+		if kind != "maprange" {
+			key = kind + ":" + key
+		}
+		return siteRec{Key: key, File: fname, Fn: dn, Operand: operand, Scope: fscope, Kind: kind, Line: fset.Position(n.Pos()).Line, Guard: guards()}
+	}
+	enclosingStmt := func() ast.Node {
+		for i := len(stack) - 1; i >= 0; i-- {
+			if s, ok := stack[i].(ast.Stmt); ok {
+				if _, isBlock := s.(*ast.BlockStmt); !isBlock {
+					return s
+				}
+			}
+			if s, ok := stack[i].(*ast.ValueSpec); ok {
+				return s
+			}
+		}
+		return nil
+	}
+	ast.Inspect(d, func(n ast.Node) bool {
+		if n == nil {
+			stack = stack[:len(stack)-1]
+			return true
+		}
+		switch x := n.(type) {
+		case *ast.RangeStmt:
+			tv, ok := info.Types[x.X]
+			isMap := false
+			if ok && tv.Type != nil {
+				_, isMap = tv.Type.Underlying().(*types.Map)
+			}
+			if !ok || tv.Type == nil {
+				// untyped operand (type error nearby): must not go unnoticed
+				sites = append(sites, mk("maprange", x, "UNTYPED-"+hash12(normSrc(fset, x)), normSrc(fset, x.X)))
+			} else if isMap {
+				// tail: following siblings that use what the loop wrote
+				var tail []string
+				if len(stack) > 0 {
+					sibs := stmtList(stack[len(stack)-1])
+					w := writtenOutside(info, x.Body, x.Pos(), x.End())
+					after := false
+					for _, s := range sibs {
+						if s == ast.Stmt(x) {
+							after = true
+							continue
+						}
+						if after && len(w) > 0 && mentions(info, s, w) {
+							tail = append(tail, normSrc(fset, s))
+						}
+					}
+				}
+				fp := hash12(append([]string{normSrc(fset, x)}, tail...)...)
+				sites = append(sites, mk("maprange", x, fp, normSrc(fset, x.X)))
+			}
+		case *ast.SelectStmt:
+			if x.Body != nil && len(x.Body.List) >= 2 {
+				sources = append(sources, mk("select", x, hash12(normSrc(fset, x)), "select"))
+			}
+		case *ast.SelectorExpr:
+			if id, ok := x.X.(*ast.Ident); ok {
+				if pn, ok := info.Uses[id].(*types.PkgName); ok && pn.Imported().Path() == "unsafe" {
+					st := enclosingStmt()
+					if st == nil {
+						st = x
+					}
+					sources = append(sources, mk("address", x, hash12(normSrc(fset, st), guards()), "unsafe."+x.Sel.Name))
+				}
+			}
+		case *ast.GoStmt:
+			sources = append(sources, mk("goroutine", x, "go", "go")) // the bodies belong to C11: only the existence of the goroutine is recorded
+		case *ast.BasicLit:
+			if x.Kind == token.STRING && strings.Contains(x.Value, "%p") {
+				st := enclosingStmt()
+				if st == nil {
+					st = x
+				}
+				sources = append(sources, mk("pointerfmt", x, hash12(normSrc(fset, st), guards()), "%p"))
+			}
+		case *ast.CallExpr:
+			var fn *types.Func
+			switch fx := x.Fun.(type) {
+			case *ast.SelectorExpr:
+				fn, _ = info.Uses[fx.Sel].(*types.Func)
+			case *ast.Ident:
+				fn, _ = info.Uses[fx].(*types.Func)
+			}
+			if fn != nil {
+				full := fn.FullName()
+				if kind, ok := sourceFuncs[full]; ok {
+					st := enclosingStmt()
+					if st == nil {
+						st = x
+					}
+					sources = append(sources, mk(kind, x, hash12(normSrc(fset, st), guards()), full))
+				}
+				if fmtFuncs[full] {
+					for ai, a := range x.Args {
+						if ai == 0 && strings.HasPrefix(fn.Name(), "F") {
+							continue // the io.Writer
+						}
+						if tv, ok := info.Types[a]; ok && isAddressy(tv.Type, stringer, errT) && !tv.IsNil() {
+							sources = append(sources, mk("pointerarg", x, hash12(normSrc(fset, x)), normSrc(fset, a)))
+						}
+					}
+				}
+			}
+		}
+		stack = append(stack, n)
+		return true
+	})
+	return
+}
+
+var cachedStringer, cachedErrT *types.Interface
+
+func fmtIfaces() (*types.Interface, *types.Interface) {
+	if cachedStringer == nil {
+		cachedErrT = types.Universe.Lookup("error").Type().Underlying().(*types.Interface)
+		strSig := types.NewSignatureType(nil, nil, nil, nil, types.NewTuple(types.NewVar(token.NoPos, nil, "", types.Typ[types.String])), false)
+		cachedStringer = types.NewInterfaceType([]*types.Func{types.NewFunc(token.NoPos, nil, "String", strSig)}, nil)
+		cachedStringer.Complete()
+	}
+	return cachedStringer, cachedErrT
 }
 
 // SelfTest runs the extractor on a small synthetic package that contains one instance of every
